@@ -18,7 +18,7 @@ ECtx == { C("", " + 1"), C("1 + ", ""), C("2 * ", ""), C("-", ""), C("(", ")"), 
           C("xs[", "]"), C("len(xs[", ":])"), C("len(xs[:", "])"), C("len(xs[::", "])"), C("len(\"abc\"[", ":])"),
           C("len(f\"{", "}\")"), C("len(f\"a{1}b{", "}\")"),
           C("len([", " for i in xs])"), C("len([i for i in xs if ", " > 0])"), C("len([i for i in [", "]])"),
-          C("len([i for i in range(", ")])"), C("len({i: ", " for i in xs})"), C("len({", ": i for i in xs})"),
+          C("len([i for i in range(", ")])"), C("len({i: ", " for i in xs})"), C("len({i: i for i in xs if ", " > 0})"), C("len({i: i for i in [", "]})"), C("len({", ": i for i in xs})"),
           C("unwrap_some(Some(", "))"), C("unwrap_ok(Ok(", "))"), C("P(x=", ").x"), C("P(x=1, y=", ").y"),
           C("sum([", "])"), C("min([", ", 2])"), C("pick(", " > 0)"), C("pick(not (", " > 0))"), C("pick(true and ", " > 0)"),
           C("pick(", " in xs)"), C("pick(1 < ", ")") }
